@@ -274,6 +274,9 @@ structure DState where
   opNo : Nat := 0
   inCase : Bool := false
   ticker : Bool := false      -- kind p1t: the 1 s write ticker is running
+  /-- how a data request is answered (Driver.C30 plugs in the model that also keeps the expiry index) -/
+  stepF : Cfg → Arith → Int → State → Req → Model.Out := Model.step
+  byKey : Bool := false       -- case attribute sorted=1: claim replies are listed by key
   longSeen : Bool := false    -- a long key (`x@N`) occurred in this case: replies are compressed again
 
 /-- the write ticker has run: every treasure waiting for the writer is written (its object gets a
@@ -317,14 +320,17 @@ def stepReq (d : DState) (f : List String) : DState × String :=
     let now := d.ck.now + opNo
     let ck : Clock := { d.ck with nows := now :: d.ck.nows }
     let verb := f.headD ""
-    let o := Model.step d.cfg d.ar now d.s req
+    let o := d.stepF d.cfg d.ar now d.s req
     let before := Model.abs d.s
     let sp := Spec.step d.ar now before req
     let after := Model.abs o.s
     let devAny : Bool := !d.s.dead && (decide (sp.2 ≠ o.r) || decide (sp.1 ≠ after))
     let dev : Bool := devAny && d.pol == .c06
     let tag := pickTag o.tags <|> d.lastTag
-    let lastTag := match pickTag o.tags with | some t => some t | none => d.lastTag
+    -- (the one mechanism known to move an expiry past the index stays the explanation for the rest of the case)
+    let lastTag := if d.pol == .c30 && (d.lastTag == some Tag.incFailTrace || o.tags.contains Tag.incFailTrace)
+                   then some Tag.incFailTrace
+                   else match pickTag o.tags with | some t => some t | none => d.lastTag
     -- a deviation from the data-request Spec that this domain does not report is still marked
     -- (`#D:`), so that the independent reference knows the line is accounted for elsewhere (C06)
     let flag := if dev then "\t#F:" ++ d.pid ++ "-" ++ (match tag with | some t => tagId t | none => "unattributed")
@@ -337,16 +343,43 @@ def stepLineRaw (d : DState) (line : String) : DState × String :=
   match f with
   | "case" :: _ :: rest =>
     let kind := (rest.filterMap fun a => match a.splitOn "=" with | ["kind", v] => some (kindOf v) | _ => none).headD .mem
-    ({ d with s := { kind := kind }, ck := {}, lastTag := none, opNo := 0, inCase := true, ticker := rest.contains "kind=p1t", longSeen := false }, line)
+    ({ d with s := { kind := kind }, ck := {}, lastTag := none, opNo := 0, inCase := true, ticker := rest.contains "kind=p1t", longSeen := false, byKey := rest.contains "sorted=1" }, line)
   | _ =>
     if !d.inCase then (d, "no-case")
     else match f with
+    | ["within", _] => if d.s.dead then (d, "skip") else (d, "ok")
     | ["wait", ms] =>
       if d.s.dead then (d, "skip")
       else
         let n := ms.toInt?.getD 0
         let s := if d.ticker && n ≥ 2500 then tick d.cfg d.s else d.s
         ({ d with s := s, ck := { d.ck with now := d.ck.now + n * 1000000 } }, "ok")
+    | ["mcount"] =>
+      -- one Count over (this swamp, a swamp never created, this swamp): answers in request order
+      let (d1, r) := stepReq d ["count"]
+      let parts := r.splitOn "\t"
+      let body := parts.headD ""
+      let flags := String.join ((parts.drop 1).map fun p => "\t" ++ p)
+      if body.startsWith "count " then (d1, s!"mcount {body.drop 6} / - / {body.drop 6}" ++ flags) else (d1, r)
+    | "mdel" :: keys =>
+      -- one Delete over (a swamp never created, this swamp): the missing swamp is an entry of its own
+      let (d1, r) := stepReq d ("del" :: keys)
+      let parts := r.splitOn "\t"
+      let body := parts.headD ""
+      let flags := String.join ((parts.drop 1).map fun p => "\t" ++ p)
+      if body.startsWith "del " then (d1, s!"mdel ERR:SwampDoesNotExist / {body.drop 4}" ++ flags) else (d1, r)
+    | "mset" :: rest =>
+      -- one Set naming this swamp twice with the same items (one request: one request number)
+      let (d1, r1) := stepReq d ("set" :: rest)
+      let p1 := r1.splitOn "\t"
+      let b1 := p1.headD ""
+      if !b1.startsWith "set " then (d1, r1)
+      else
+        let (d2, r2) := stepReq d1 ("set" :: rest)
+        let p2 := r2.splitOn "\t"
+        let b2 := p2.headD ""
+        let flags := String.join (((p1.drop 1) ++ (p2.drop 1)).eraseDups.map fun p => "\t" ++ p)
+        ({ d2 with opNo := d1.opNo }, s!"mset {b1.drop 4} / {if b2.startsWith "set " then b2.drop 4 else b2}" ++ flags)
     | "mget" :: keys =>
       -- one Get over three swamp entries (this swamp, a swamp that was never created, this swamp):
       -- a batch answers per swamp, so a missing swamp is an entry, not an error
@@ -390,7 +423,9 @@ def stepLineRaw (d : DState) (line : String) : DState × String :=
       else stepReq d f
     | _ => stepReq d f
 
-def stepLine (d : DState) (line : String) : DState × String :=
+def stepLine (d : DState) (line0 : String) : DState × String :=
+  -- `V~v`: a typed value sent together with VoidVal = true; the typed value is what counts
+  let line := line0.replace "~v|" "|"
   if (line.splitOn "x@").length > 1 || d.longSeen then
     let (d', out) := stepLineRaw { d with longSeen := true } (expandLong line)
     (d', compressLong out)
